@@ -20,7 +20,6 @@ import os
 import random
 import shutil
 import subprocess
-import tempfile
 import time
 from concurrent.futures import ThreadPoolExecutor
 
@@ -66,14 +65,11 @@ def write_cfg(name, text):
 # ----------------------------------------------------------------------------------------------
 def _ignorelist():
     """UBSan is not applied to functions of namespace rapidjson (third-party header code: RapidJSON 1.1.0 computes
-    `null + offset` in internal/stack.h on every first push); ASan stays on.  Stable path: it is part of the build cache key."""
-    text = "[undefined]\nfun:_ZN9rapidjson*\nfun:_ZNK9rapidjson*\n"
-    p = os.path.join(tempfile.gettempdir(), "bsverif-c02-ubsan-ignorelist.txt")
-    if not os.path.exists(p) or open(p).read() != text:
-        tmp = p + ".%d" % os.getpid()
-        with open(tmp, "w") as f:
-            f.write(text)
-        os.replace(tmp, p)
+    `null + offset` in internal/stack.h on every first push); ASan stays on.  A committed file: its path is part of the build
+    cache key, nothing is written at run time (both build legs run as threads of one process), nothing is needed under /tmp."""
+    p = os.path.join(vlib.VERIF, "harness", "ubsan-ignorelist.txt")
+    if not os.path.isfile(p):
+        raise vlib.MachineryError("missing " + p)
     return p
 
 
